@@ -246,3 +246,32 @@ func VH_C19_Clock() {
 	}
 	vreach("end")
 }
+
+// vc19Variant: a second, different list (other script type, other attribute subsets) used between two writes.
+func vc19Variant(v int) *Subtitles {
+	s := vc19ListK(2, 1, 1+v)
+	if v%2 == 0 {
+		s.Metadata.SSAScriptType = "v4.00+"
+	}
+	s.Items[0].Lines = []Line{{VoiceName: "Ann", Items: []LineItem{{Text: "other", InlineStyle: &StyleAttributes{SRTItalics: true, STLItalics: vboolp(true), WebVTTTags: []WebVTTTag{{Name: "i"}}}}}}}
+	return s
+}
+
+// C19: writing a list gives the same bytes whatever was written before it in the same process
+// (same list, same bytes: no state carried from one write to the next).
+func VH_C19_HistoryIndependent() {
+	vmode("int")
+	format := choose(4)
+	a := vc19ListK(2, 1, choose(2))
+	if format == 1 || format == 2 {
+		a.Items[0].StartAt = time.Duration(nondetInt64(0, 9)) * time.Second
+		a.Items[0].EndAt = a.Items[0].StartAt + 10*time.Second
+	}
+	b1, e1 := vc19Write(format, a)
+	other := vc19Variant(choose(2))
+	_, e2 := vc19Write(format, other)
+	b3, e3 := vc19Write(format, a)
+	vassert(e1 == nil && e2 == nil && e3 == nil, "C19 writes succeed")
+	vassert(bytes.Equal(b1, b3), "C19 history: same list, same bytes, whatever was written in between")
+	vreach("end")
+}
